@@ -133,6 +133,37 @@ def catalogue():
     A("armodels.armodel_sim", lambda a: armodels.armodel_sim(a["p"], a["obs"], 1.0, 0.5), lambda r: {"p": np.array([0.5, -0.2]), "obs": r.normal(size=n)}, ["p", "obs"])
     A("armodels.armodel_residual", lambda a: armodels.armodel_residual(a["p"], a["obs"], 1.0, 0.5), lambda r: {"p": np.array([0.5, -0.2]), "obs": r.normal(size=n)}, ["p", "obs"])
     A("armodels.yule_walker", lambda a: armodels.yule_walker(a["acf"]), lambda r: {"acf": np.array([1.0, 0.6, 0.3])}, ["acf"])
+    # ---- the same functions with their optional arguments in use and with missing values in the data
+    def vecnan(rng):
+        o, s_ = rng.uniform(0.5, 9, n), rng.uniform(0.5, 9, n)
+        o[[3, 17, 18]] = np.nan
+        s_[[5, 17]] = np.nan
+        flags = rng.random((n, 3)) < 0.8
+        flags[[3, 5], :] = True
+        return {"obs": o, "sim": s_, "idx": flags[:, 1].copy(), "flags": flags}
+
+    def ensnan(rng):
+        d = {"obs": rng.uniform(0.5, 9, n), "ens": rng.uniform(0.5, 9, (n, 6))}
+        d["obs"][[2, 11]] = np.nan
+        d["ens"][4, 2] = np.nan
+        return d
+    A("sutils.acf(idx, NaN)", lambda a: sutils.acf(a["obs"], maxlag=3, idx=a["idx"]), vecnan, ["obs", "idx"])
+    A("sutils.acf(idx view, NaN)", lambda a: sutils.acf(a["obs"], maxlag=2, idx=a["flags"][:, 1]), vecnan, ["obs", "flags"])
+    A("sutils.standard_normal(sorted, cst, rank_method)", lambda a: sutils.standard_normal(a["srt"], cst=0.3, sorted=True, rank_method="min"),
+      lambda r: {"srt": np.sort(np.round(r.uniform(0, 9, n)))}, ["srt"])
+    A("sutils.pareto_front(NaN, orientation)", lambda a: sutils.pareto_front(a["ens"], orientation=-1), ensnan, ["ens"])
+    A("metrics.nse(excludenull, NaN)", lambda a: metrics.nse(a["obs"], a["sim"], excludenull=True), vecnan, ["obs", "sim"])
+    A("metrics.bias(excludenull, NaN, type)", lambda a: metrics.bias(a["obs"], a["sim"], excludenull=True, type="log"), vecnan, ["obs", "sim"])
+    A("metrics.kge(excludenull, NaN)", lambda a: metrics.kge(a["obs"], a["sim"], excludenull=True), vecnan, ["obs", "sim"])
+    A("metrics.corr(excludenull, NaN)", lambda a: metrics.corr(a["obs"], a["sim"], excludenull=True, type="Pearson"), vecnan, ["obs", "sim"])
+    A("metrics.crps(NaN obs)", lambda a: metrics.crps(a["obs"], a["ens"][:, [0, 1, 3]]), ensnan, ["obs", "ens"])
+    A("metrics.pit(censor, NaN)", lambda a: metrics.pit(a["obs"], a["ens"], censor=3.0), ensnan, ["obs", "ens"])
+    A("metrics.dscore(eps)", lambda a: metrics.dscore(a["obs"], a["ens"], eps=0.5), ens, ["obs", "ens"])
+    A("metrics.iqr(coverage)", lambda a: metrics.iqr(a["ens"], a["ens"][::-1] + 0.5, coverage=80.), ens, ["ens"])
+    A("armodels.armodel_sim(defaults, NaN)", lambda a: armodels.armodel_sim(a["p"], a["obs"]),
+      lambda r: {"p": np.array([0.5, -0.2]), "obs": np.where(r.random(n) < 0.2, np.nan, r.normal(size=n))}, ["p", "obs"])
+    A("armodels.armodel_residual(defaults, NaN)", lambda a: armodels.armodel_residual(a["p"], a["obs"]),
+      lambda r: {"p": np.array([0.5, -0.2]), "obs": np.where(r.random(n) < 0.2, np.nan, r.normal(size=n))}, ["p", "obs"])
     # ---- transforms: ONE instance per class lives in the shared arguments; it is parameterised by attribute after
     # construction and then asked for backward, forward, jacobian (round 0) and again (round 1): the same call with the
     # same parameter values must not depend on which method was called before
@@ -211,6 +242,21 @@ def catalogue():
             raise _ArgumentModified("gsmooth changed the grid or mask passed to it")
         return r
     G("grid.gsmooth", gs, ["alt"])
+
+    def gridnan(r):
+        d = gridargs(r)
+        d["altnan"] = d["alt"].clone()
+        d["altnan"].data[1, 2] = np.nan
+        d["altnan"].data[3, 3] = np.nan
+        d["altnan"].data[0, 0] = -5.0
+        return d
+    A("grid.gsmooth(no mask, NaN cells)", lambda a: gridmod.gsmooth(a["altnan"], coastwin=3, sigma=0.5), gridnan, ["altnan"])
+    A("grid.gsmooth(no mask, minval)", lambda a: gridmod.gsmooth(a["altnan"], coastwin=3, sigma=0.5, minval=0.0), gridnan, ["altnan"])
+    A("Grid.slice(NaN cells)", lambda a: a["altnan"].slice(a["xy"]), gridnan, ["altnan", "xy"])
+    A("Grid.apply(NaN cells)", lambda a: a["altnan"].apply(np.log1p), gridnan, ["altnan"])
+    A("grid.accumulate(nprint, max cells)", lambda a: gridmod.accumulate(a["flow"], a["altnan"], nprint=3, max_accumulated_cells=5), gridnan, ["flow", "altnan"])
+    A("grid.slope(NaN cells)", lambda a: gridmod.slope(a["flow"], a["altnan"], nprint=7), gridnan, ["flow", "altnan"])
+    A("Catchment.intersect(filled)", lambda a: a["cat"].intersect(gridmod.Grid("co", 3, 3, cellsize=2.0, xllcorner=-0.25, yllcorner=-0.75), filled=True), gridargs, ["cat"])
     G("Catchment.delineate_boundary", lambda a: (a["cat"].delineate_boundary(), a["cat"].idxcells_boundary)[1], ["cat"])
     G("Catchment.compute_flowpathlengths", lambda a: (a["cat"].compute_flowpathlengths(), a["cat"].flowpathlengths)[1], ["cat"])
     G("grid.delineate_river", lambda a: gridmod.delineate_river(a["flow"], 0, nval=20), ["flow"])
